@@ -33,6 +33,10 @@ def build(c, rng, shift=None, dshift=None, perm=None):
     w = rng.uniform(0.5, 2.0, n)
     grid = D[rng.choice(n, size=g, replace=False)].copy() if c['grid'] == 'subset' else centres[rng.integers(0, 3, g)] + rng.normal(size=(g, d)) * 0.3
     Q = centres[rng.integers(0, 3, 6)] + rng.normal(size=(6, d)) * 0.5
+    if d >= 2:
+        # queries that share all coordinates but one with a descriptor (they are NOT descriptors): discretised / lattice-like situations
+        Qs = D[rng.choice(n, size=3, replace=False)].copy(); Qs[:, 0] += rng.uniform(0.05, 0.3, 3)
+        Q = np.vstack([Q, Qs])
     return D, w, grid, Q, cell
 
 def fit(c, D, w, grid, cell):
